@@ -677,6 +677,8 @@ def _run_parallel(prop, hs, res, a, tier, jobs, total_budget, t0, pre):
     tmp = tempfile.mkdtemp(prefix="par_%s_" % prop, dir=scratch)
     cmd = [sys.executable, "-m", "checks." + prop, "--tier", tier] + (["--only", a.only] if a.only else [])
     pending = list(range(len(hs)))
+    limit = float(os.environ.get("VF_WORKER_LIMIT_S", 900 if tier == "quick" else 5400))  # a z3 call may ignore its own time limit
+    started = {}
     running = {}  # index -> (Popen, outfile)
     done = {}
     pre_done = pre is None
@@ -686,18 +688,21 @@ def _run_parallel(prop, hs, res, a, tier, jobs, total_budget, t0, pre):
                 i = pending.pop(0)
                 out = os.path.join(tmp, "h%d.pkl" % i)
                 running[i] = (subprocess.Popen(cmd + ["--child", str(i), "--child-out", out], stdout=sys.stderr), out)
+                started[i] = time.time()
             if not pre_done:  # CrossHair part runs in this process while the harness workers are busy
                 pre(res, tier)
                 pre_done = True
             time.sleep(0.2)
             over = time.time() - t0 > total_budget
             for i, (p, out) in list(running.items()):
-                if p.poll() is None and not over:
+                late = time.time() - started[i] > limit
+                if p.poll() is None and not over and not late:
                     continue
                 if p.poll() is None:
                     p.kill()
                     p.wait()
-                    done[i] = "%s: stopped -- the time budget of this tier (%ds) was used up" % (hs[i].name, total_budget)
+                    done[i] = ("%s: stopped -- the time budget of this tier (%ds) was used up" % (hs[i].name, total_budget) if over else
+                               "%s: stopped after %ds (worker limit; a solver call did not return)" % (hs[i].name, limit))
                 else:
                     try:
                         with open(out, "rb") as f:
